@@ -7,14 +7,16 @@ from spec import sgr
 
 META = {
     "explanation": (
-        "Static reading of anstyle_git::{parse, parse_color}: the attribute keyword table (7 attributes x {x -> insert, nox and "
-        "no-x -> remove} of the same Effects constant: 21 literals) and the colour-name table (8 names, normal and -1 -> None) "
-        "against git's vocabulary; words come from split_whitespace and are lower-cased before matching; the first colour goes "
-        "to fg_color, the second to bg_color, a third returns ExtraColor and a non-colour UnknownWord, both carrying the "
-        "original word; effects are accumulated sequentially on one local and OR-ed into the style once after the loop; the hex "
-        "branch slices by byte offsets only under a length guard and an ASCII-hex-digit guard, parses with radix 16 and builds "
-        "the colour from (r, g, b) in order; decimal words go through u8::from_str. Does NOT decide the print-then-parse round "
-        "trip nor u8::from_str's accepted syntax."),
+        "anstyle_git::parse is evaluated abstractly (lib/abseval.py, concrete strings, anstyle's functions followed into their "
+        "bodies) on a closed vocabulary of about 430 descriptions — the words of the specification, every string literal the "
+        "crate's non-test code contains, each with no/no- prefixes and in other letter cases, colour pairs and triples, unknown "
+        "words in every position, whitespace kinds, non-ASCII '#' words — and every result (style, or error variant with its "
+        "payload) is compared with a model of the documented syntax written in the rule: keyword table, colour table, slot order "
+        "(first colour fg, second bg, third ExtraColor), UnknownWord with the original word, a later negation wins. The hex "
+        "branch is additionally read structurally: byte-offset slicing only under a length guard and an ASCII-hex-digit guard, "
+        "radix 16, (r, g, b) in order. Does NOT decide the print-then-parse round trip; words outside the vocabulary are covered "
+        "by the literal-closure argument (a word the code treats specially must appear in it as a literal or be built from one), "
+        "not by enumeration."),
     "exhaustive": True,
 }
 
@@ -26,7 +28,7 @@ MANIFEST = {
              "vocabulary in this file. Not decided: round trip; sign handling of decimal words ('+5' is accepted by u8::from_str; "
              "real git accepts it too). Observation (not claimed as a finding): git expands '#rgb' to '#rrggbb' by doubling each "
              "digit, this parser reads each digit as a value 0-15."),
-    "technique": "static analysis: string-literal match-table extraction vs git vocabulary, case-wise path feasibility of the colour slots (parse_color Ok/Err x colours seen), polynomial/value-flow rules for the hex slices, guard-dominance rules",
+    "technique": "static analysis: abstract evaluation of parse (concrete-string layer of lib/abseval.py) on a closed vocabulary — the specification's words, every string literal of the crate, their no-/case variants, colour pairs and triples — compared with a model of the documented syntax; polynomial/value-flow rules for the hex slices, guard-dominance rules",
 }
 
 G = "anstyle_git::"
